@@ -27,6 +27,12 @@ CHECKS = {
              'plus seeded random perturbations around each boundary. The evidence contains the observed matrix cell => outcome.',
         note='trusted: ref/script.py encodes the limits as the BIPs state them; lock-time success paths need a transaction and are covered by C02/C03',
         ref='5 C10'),
+    'C16': dict(
+        technique='runtime monitoring: reference-model monitor over Instance::eval() at random session prefixes (ASan+UBSan build)',
+        text='Exploration: exec token lists (opcode names, decimals, hex pushes, invalid tokens) are issued at the start, middle, last operation and end of model-steered sessions; the state after exec is compared with the reference '
+             'interpreter executing the compiled operations on the same pre-state (stack, alt stack, condition stack, op count), the error code if one fails, position/remaining script must be untouched, and the rest of the session is stepped and compared.',
+        note='trusted: ref/script.py; the token grammar as documented by exec; OP_CODESEPARATOR / signature opcodes inside exec are left to C15',
+        ref='5 C16'),
     'C17': dict(
         technique='runtime monitoring: reference-function monitor over one-op Instance::step() traces, exhaustive over a boundary operand pool (ASan+UBSan build)',
         text='Exploration, exhaustive over a fixed boundary pool: each of the 15 re-enabled opcodes is executed by the real interpreter (allow_disabled_opcodes on/off, executed / unexecuted branch) on every operand tuple of a 44-value pool '
